@@ -12,7 +12,10 @@ def plan(mod, tier):
     """Deterministic list of work items (sub, variant, replica, nreplicas, n_examples)."""
     ti = 0 if tier == "quick" else 1
     items = []
+    only = [x for x in os.environ.get("VERIF_SUBS", "").split(",") if x]  # developer aid: restrict to some sub-checks
     for sub in mod.SUBS:
+        if only and sub.name not in only:
+            continue
         nrep = sub.replicas[ti]
         nex = sub.examples[ti]
         for variant in sub.variants:
